@@ -393,8 +393,8 @@ def run(ctx):
                 # the legacy submit end point (fe.submit.Process)
                 (ctx.tier, ctx.seed, 2, 1, 1, ('now', 'crew_idle', 'todo_empty'), 0, 'old')]
     else:
-        jobs = [(ctx.tier, ctx.seed, 3, 1, 2, PRIOS), (ctx.tier, ctx.seed, 2, 2, 2, PRIOS),
-                (ctx.tier, ctx.seed, 2, 1, 2, PRIOS, 2), (ctx.tier, ctx.seed, 2, 1, 2, PRIOS, 0, 'old')]
+        jobs = [(ctx.tier, ctx.seed, 3, 1, 1, PRIOS), (ctx.tier, ctx.seed, 2, 2, 2, PRIOS),
+                (ctx.tier, ctx.seed, 2, 1, 1, PRIOS, 1), (ctx.tier, ctx.seed, 2, 1, 2, PRIOS, 0, 'old')]
     states = transitions = 0
     per = []
     for j in jobs:
